@@ -424,6 +424,23 @@ func mkEq(a, b *Term) *Term {
 		}
 	}
 	if b.op == OpConst && a.sort.K == KBV {
+		if b.val > umax(a) {
+			return tFalse
+		}
+		// (x | c) == k  and  (x & c) == k
+		if a.op == OpBOr && a.args[1].op == OpConst {
+			c := a.args[1].val
+			if b.val&c != c {
+				return tFalse
+			}
+			return mkEq(mkBin(OpBAnd, a.args[0], mkBV(a.sort.Bits, ^c)), mkBV(a.sort.Bits, b.val&^c))
+		}
+		if a.op == OpBAnd && a.args[1].op == OpConst {
+			c := a.args[1].val
+			if b.val&^c != 0 {
+				return tFalse
+			}
+		}
 		// ite(c, k1, k2) == k  with constants
 		if a.op == OpIte && a.args[1].op == OpConst && a.args[2].op == OpConst {
 			e1 := a.args[1].val == b.val
@@ -607,6 +624,18 @@ func mkBin(op Op, a, b *Term) *Term {
 			if a.op == OpZext && b.val&mask(a.args[0].sort.Bits) == mask(a.args[0].sort.Bits) {
 				return a
 			}
+			// x & k == 0 when every set bit of k lies above x's range
+			if lowbit := b.val & -b.val; lowbit != 0 && umax(a) < lowbit {
+				return mkBV(n, 0)
+			}
+			// (x | c) & k  =  (x & k) | (c & k)
+			if a.op == OpBOr && a.args[1].op == OpConst {
+				return mkBin(OpBOr, mkBin(OpBAnd, a.args[0], b), mkBV(n, a.args[1].val&b.val))
+			}
+			// (x & c) & k = x & (c&k)
+			if a.op == OpBAnd && a.args[1].op == OpConst {
+				return mkBin(OpBAnd, a.args[0], mkBV(n, a.args[1].val&b.val))
+			}
 		}
 	case OpBOr:
 		if a == b {
@@ -691,6 +720,19 @@ func umax(t *Term) uint64 {
 			return a
 		}
 		return b
+	case OpBOr, OpBXor:
+		a, b := umax(t.args[0]), umax(t.args[1])
+		// smallest all-ones value covering both
+		m := a | b
+		m |= m >> 1
+		m |= m >> 2
+		m |= m >> 4
+		m |= m >> 8
+		m |= m >> 16
+		m |= m >> 32
+		return m
+	case OpExtract:
+		return mask(t.sort.Bits)
 	case OpLShr:
 		if t.args[1].op == OpConst && t.args[1].val < 64 {
 			return umax(t.args[0]) >> t.args[1].val
@@ -723,6 +765,15 @@ func mkCmp(op Op, a, b *Term) *Term {
 	if a == b {
 		return mkBool(op == OpUle || op == OpSle)
 	}
+	if op == OpUlt && b.op == OpConst && b.val == 0 {
+		return tFalse
+	}
+	if op == OpUle && a.op == OpConst && a.val == 0 {
+		return tTrue
+	}
+	if op == OpUlt && b.op == OpConst && b.val == 1 {
+		return mkEq(a, mkBV(n, 0))
+	}
 	// cheap range reasoning for zero-extended small values
 	if n > 8 {
 		ma, mb := umax(a), umax(b)
@@ -734,6 +785,9 @@ func mkCmp(op Op, a, b *Term) *Term {
 			} else if op == OpSle {
 				op = OpUle
 			}
+		}
+		if op == OpUlt && b.op == OpConst && b.val == 0 {
+			return tFalse
 		}
 		if op == OpUlt || op == OpUle {
 			if b.op == OpConst {
